@@ -31,6 +31,7 @@ const (
 	extRegexAbsent
 	extIdentityHooks
 	extIdentityRewriters
+	extObservers // st callback that reads what it is told; global load function that knows no name; identity load-overwrite
 	extAll
 	extCount
 )
@@ -64,6 +65,15 @@ func c17Install(vm *ds.Context, ext int, calls *int) {
 				return doCompute(curVal)
 			}
 			vm.Config.HookValueStore = func(ctx *ds.Context, name string, v *ds.VMValue) (*ds.VMValue, bool) { return nil, false }
+		case extObservers:
+			vm.Config.CallbackSt = func(_type string, name string, val *ds.VMValue, extra *ds.VMValue, op string, detail string) {
+				_ = val.ToString()
+				if extra != nil {
+					_ = extra.ToString()
+				}
+			}
+			vm.GlobalValueLoadFunc = func(name string) *ds.VMValue { return nil }
+			vm.GlobalValueLoadOverwriteFunc = func(name string, curVal *ds.VMValue) *ds.VMValue { return curVal }
 		case extIdentityRewriters:
 			vm.Config.CustomDetailSpanRewriteFunc = func(ctx *ds.Context, defaultDetail string, span ds.BufferSpan, isRoot bool, data []byte, off int) string {
 				return defaultDetail
@@ -108,6 +118,10 @@ func c17Enumerate(tier string, seed int64, emit func(string, any)) {
 		progs = append(progs, t.Src+" + 1", "2 * "+t.Src)
 	}
 	progs = append(progs, "E", "Efoo", "ZZZ", "ZZZx + 1", "E + 1", "C", "CT", "C1", "C1T", "x.E", "[E]")
+	// st edits whose value is not a number, a list of edits, a multiplier edit, a computed edit (the observer sees each)
+	for _, v := range []string{"1", "1.5", "'abc'", "null", "[1]", "xs", "xa", "xd", "xf", "1 ? 'abc' : 2", "0 || 'a'", "2d1"} {
+		progs = append(progs, "^stA-"+v, "^stA+"+v, "^stA-="+v, "^stA+="+v, "^stA:"+v, "^stA*2:"+v, "^st&A="+v, "^stA-"+v+" B+1", "^stA1 B-"+v)
+	}
 	for _, p := range progs {
 		for ext := 0; ext < extCount; ext++ {
 			emit("transparent", c17Case{Kind: "transparent", Src: p, Ext: ext})
